@@ -116,6 +116,8 @@ func build(c Case) (*gen.Program, map[string]string, string) {
 		return gen.Replay(c.Choices, gen.Funcs(gen.FuncCfg{Budget: c.Budget})), nil, ""
 	case "alias":
 		return gen.Replay(c.Choices, gen.Alias(c.Budget)), nil, ""
+	case "tails":
+		return gen.Tails(c.Op, c.Budget), nil, "kind=" + c.Op
 	case "limits":
 		return gen.Limits(c.Op, c.Budget), nil, "kind=" + c.Op + "/size=" + fmt.Sprint(c.Budget)
 	case "stmt":
@@ -167,7 +169,7 @@ func runCase(c Case) (fails []fail, obs string) {
 	}
 	o := tg.Run(src.Main.Src, tg.Opts{Inputs: implIn, Modules: src.ModMap})
 	feat := features(prog)
-	if c.Family == "limits" {
+	if c.Family == "limits" || c.Family == "tails" {
 		feat = ""
 	}
 	add := func(kind, what string) {
@@ -532,6 +534,14 @@ func main() {
 			exec(Case{Family: "limits", Op: k, Budget: n})
 		}
 	}
+	phase("tails")
+	var tails []Case
+	for _, k := range gen.TailKinds {
+		for i := 0; i < gen.TailCount(k); i++ {
+			tails = append(tails, Case{Family: "tails", Op: k, Budget: i})
+		}
+	}
+	report.ParallelFor(len(tails), func(i int) { exec(tails[i]) })
 	phase("alias")
 	ac := Case{Family: "alias", Budget: r.Pick(3, 4)}
 	gen.ParallelEnumerate(gen.Alias(ac.Budget), 2, func(p *gen.Program, ch []int) {
